@@ -163,6 +163,10 @@ pub struct St {
     /// Mode::Classes: copies per class; Mode::Elements: (inserts - deletes) per element
     pub cnt: Vec<u8>,
     pub tainted: bool,
+    /// steps taken since the reference first disagreed on a property other than the one this
+    /// run decides; such states are followed for a few steps only (the product space of a buggy
+    /// implementation and a diverged reference need not be finite)
+    pub off: u8,
     /// witness: (op, element) list, not part of the key
     pub hist: Vec<(u8, u16)>,
 }
@@ -212,7 +216,7 @@ impl CfModel {
     }
     pub fn init(&self) -> St {
         let n = match self.mode { Mode::Classes => self.classes.n_classes, Mode::Elements => self.cfg.n_elements() };
-        St { f: self.cfg.fresh(), cnt: vec![0; n], tainted: false, hist: vec![] }
+        St { f: self.cfg.fresh(), cnt: vec![0; n], tainted: false, off: 0, hist: vec![] }
     }
     pub fn class_count(&self, s: &St, c: usize) -> usize {
         match self.mode {
@@ -300,6 +304,9 @@ impl Model for CfModel {
     type Op = Op;
 
     fn ops(&self, s: &St) -> Vec<Op> {
+        if s.off > 4 {
+            return vec![];
+        }
         let n = self.cfg.n_elements();
         let mut v: Vec<Op> = (0..n).map(Op::Insert).collect();
         if self.with_delete {
@@ -322,6 +329,7 @@ impl Model for CfModel {
         let mut k = raw_key(&s.f);
         k.extend_from_slice(&s.cnt);
         k.push(s.tainted as u8);
+        k.push(s.off);
         k
     }
 
@@ -406,6 +414,9 @@ impl Model for CfModel {
             if self.strict {
                 return Err(vs.swap_remove(0));
             }
+        }
+        if !vs.is_empty() || s.off > 0 {
+            s.off = s.off.saturating_add(1);
         }
         Ok(kind)
     }
@@ -523,7 +534,7 @@ pub fn pair_sweep(model: &CfModel, lefts: &[St], rights: &[St], threads: usize) 
                                             Err(p) => push("C06", format!("{} union panics", cfg.sig()), format!("union panicked: {}", p), "a.union(&b) panics"),
                                             Ok(Ok(())) => {
                                                 st.ok += 1;
-                                                let mut merged = St { f: u, cnt: a.cnt.iter().zip(b.cnt.iter()).map(|(x, y)| x + y).collect(), tainted: false, hist: vec![] };
+                                                let mut merged = St { f: u, cnt: a.cnt.iter().zip(b.cnt.iter()).map(|(x, y)| x + y).collect(), tainted: false, off: 0, hist: vec![] };
                                                 merged.hist.clear();
                                                 if let Err(v) = model.check_state(&merged, "after a.union(&b) = Ok (reference = multiset sum)") {
                                                     let p = if v.signature.contains("false-negative") { "C01" } else { "C06" };
